@@ -123,6 +123,22 @@ def run_case(ctx, i, rng):
             f'closure complete, nothing stuck, but the scheduler did not '
             f'shut down by itself (ended: {res.get("stop_reason")}, '
             f'harness: {res.get("ended_by_harness")})', detail)
+    elif not expect_auto and auto and not model['incomplete'] and \
+            __import__('vlib.e1.c43', fromlist=['x']).explain_missing(
+                case, {f'{q}/{m}' for m, q in model['stuck']}, [res]):
+        # the instances the model has stuck were never spawned (or never
+        # partially satisfied) in the run: the output that would have done
+        # it arrived after its task had left the pool - the recorded C01
+        # mechanism, seen from the other side
+        from vlib.e1.c43 import explain_missing
+        root = explain_missing(
+            case, {f'{q}/{m}' for m, q in model['stuck']}, [res])
+        ctx.violation(
+            f'C01:closure-missing:{root}',
+            f'scheduler shut down by itself; the instances the model has '
+            f'waiting on partially satisfied prerequisites '
+            f'{sorted(model["stuck"])[:3]} are downstream of an output '
+            'message that arrived after its task had left the pool', detail)
     elif not expect_auto and auto:
         ctx.violation(
             'C01:shutdown-with-stuck-tasks',
